@@ -15,6 +15,9 @@ pub enum Placement {
     ChildrenFirst,
     /// level order with 5 bytes of padding between nodes
     Padded,
+    /// the data blocks stored in the file in the reverse of their genomic order (the index lists them
+    /// in genomic order, as it must); index nodes in level order
+    BlocksReversed,
     /// a tree whose leaves sit at different depths (every inner node holds an inner node followed
     /// by a leaf: legal, since every node says itself whether it is a leaf), nodes in level order
     Ragged,
@@ -244,7 +247,7 @@ fn write_rtree(w: &mut W, root: &Node, fanout: usize, item_count: u64, ips: u32,
     // emission order of non-root nodes
     let mut order: Vec<usize> = (1..n).collect();
     match placement {
-        Placement::LevelOrder | Placement::Padded | Placement::Ragged => order.sort_by_key(|i| (depth_of[*i], *i)),
+        Placement::LevelOrder | Placement::Padded | Placement::Ragged | Placement::BlocksReversed => order.sort_by_key(|i| (depth_of[*i], *i)),
         Placement::DepthFirst => {}
         Placement::ChildrenFirst => order.sort_by_key(|i| (std::cmp::Reverse(depth_of[*i]), *i)),
     }
@@ -501,6 +504,7 @@ pub fn encode(spec: &EncSpec) -> Encoded {
     w.u64(0);
     // data blocks
     let mut leaves: Vec<LeafItem> = vec![];
+    let mut pending: Vec<Vec<u8>> = vec![];
     let mut max_unc = 0usize;
     let mut wig: Vec<Vec<(u32, u32, f32)>> = vec![vec![]; chroms.len()];
     let mut bed: Vec<Vec<(u32, u32, String)>> = vec![vec![]; chroms.len()];
@@ -521,8 +525,8 @@ pub fn encode(spec: &EncSpec) -> Encoded {
                 }
                 let (bytes, unc) = pack(le, d.b, spec.compress);
                 max_unc = max_unc.max(unc);
-                let off = w.pos();
-                w.bytes(&bytes);
+                let off = pending.len() as u64;
+                pending.push(bytes.clone());
                 leaves.push(LeafItem {
                     chrom_s: id as u32,
                     start: block.iter().map(|x| x.0).min().unwrap(),
@@ -580,10 +584,22 @@ pub fn encode(spec: &EncSpec) -> Encoded {
                 data_count += 1;
                 let (bytes, unc) = pack(le, d.b, spec.compress);
                 max_unc = max_unc.max(unc);
-                let off = w.pos();
-                w.bytes(&bytes);
+                let off = pending.len() as u64;
+                pending.push(bytes.clone());
                 leaves.push(LeafItem { chrom_s: id as u32, start, chrom_e: id as u32, end, off, size: bytes.len() as u64 });
             }
+        }
+    }
+    // the blocks go into the file now: in genomic order, or (BlocksReversed) last block first
+    {
+        let order: Vec<usize> = if spec.placement == Placement::BlocksReversed { (0..pending.len()).rev().collect() } else { (0..pending.len()).collect() };
+        let mut offs = vec![0u64; pending.len()];
+        for i in order {
+            offs[i] = w.pos();
+            w.bytes(&pending[i]);
+        }
+        for l in leaves.iter_mut() {
+            l.off = offs[l.off as usize];
         }
     }
     let end_of_data = w.pos();
